@@ -356,3 +356,46 @@ def r11_lookahead_promotion(ctx):
 
 
 RULES += [r11_lookahead_promotion]
+
+
+def r12_wrapped_widening(ctx):
+    ctx.rule("C05.r12", "wrapped_interval widenings: every non-special result is *this, top, or a join whose operand is the local `join` "
+             "(= *this | x) - never a join built from x alone: x can contain both end points of *this without containing *this "
+             "(the two intervals overlap at both ends)", floor=6)
+    WI = "include/crab/domains/wrapped_interval_impl.hpp"
+    fs = [f for f in ctx.db.fns(WI) if f["name"] in ("operator||", "widening_thresholds") and (f.get("cpk") or "").endswith("wrapped_interval")]
+    if not ctx.need(fs, "wrapped_interval widenings", "C05.r12"):
+        return
+    seen = set()
+    for fn in fs:
+        if fn["name"] in seen:
+            continue
+        seen.add(fn["name"])
+        body = fn["body"]
+        if not fn.get("params"):
+            continue
+        xid = fn["params"][0]["id"]
+        d = local_decls(body)
+        joins = {dd["id"] for dd in d.values() if "i" in dd and any(is_call(c, op="|") and is_this(deref(strip(c.get("o")))) if False else
+                                                              (c.get("k") == "call" and c.get("op") == "|" and any(y.get("k") == "this" for y in walk(c.get("o"))))
+                                                              for c in walk(dd["i"]))}
+        g = paths.guards(body)
+        for r in rets(body):
+            v = strip_move(r.get("v"))
+            for _ in range(3):
+                if isinstance(v, dict) and v.get("k") == "ctor" and len(v.get("a", [])) == 1:
+                    v = strip_move(v["a"][0])
+            if not (isinstance(v, dict) and v.get("k") == "call" and v.get("op") == "|"):
+                continue
+            left = strip(v.get("o"))
+            if isinstance(left, dict) and left.get("k") == "ref" and left.get("id") in joins:
+                ctx.ok("%s: result joins onto `join` (= *this | x)" % fn["name"], fn, r)
+            elif isinstance(left, dict) and left.get("k") == "un" and left.get("op") == "*" and is_this(strip(left.get("e"))):
+                ctx.ok("%s: result joins onto *this" % fn["name"], fn, r)
+            else:
+                ctx.bad("wrapped_interval::%s returns `%s`: the join starts from `%s`, which need not contain *this - "
+                        "[0,10]_8 || [5,2]_8 = [5,2]_8 misses 3 and 4" % (fn["name"], src(v)[:60], src(left)[:20]), fn, r,
+                        sig="wrapped-widening-from-right-argument")
+
+
+RULES += [r12_wrapped_widening]
